@@ -373,6 +373,8 @@ def run_parse(r: Run, prop):
     def line_of(t, sub):
         return f"parse\t{cps(t)}" if sub is None else f"parsewith\t{sub}\t{cps(t)}"
     lines = [line_of(s, sub) for s, _, sub in cases]
+    from .common import check_charclasses
+    check_charclasses(r, [s for s, _, _ in cases])
     impl = r.impl("formula", lines, timeout=2400)
     model = r.model("formula", lines, timeout=2400)
     corr_ok = True
